@@ -120,6 +120,11 @@ def unpack_impl(pkt, raw, offset, **k):
         cookie = cookie_hash.hexdigest()
         cookie_code = f"BISTURI_PACKET_COOKIE = '{cookie}'\n"
 
+        # The cookie again, as the very last statement of the module: a
+        # module that was cut short (a writer that died while writing in
+        # place) can still define both functions, but never this line
+        end_code = f"BISTURI_PACKET_END = '{cookie}'\n"
+
         # From which file we got the packet class?
         try:
             pkt_definition_fpath = inspect.getfile(self.pkt_class)
@@ -181,7 +186,9 @@ def unpack_impl(pkt, raw, offset, **k):
 
             # Never expose a half written module: write it to a private
             # temporary file and move it into place atomically
-            sourcecode = import_code + cookie_code + pack_code + unpack_code
+            sourcecode = (
+                import_code + cookie_code + pack_code + unpack_code + end_code
+            )
             tmp_pathname = "%s.%i.%i.tmp" % (
                 module_pathname, os.getpid(), threading.get_ident()
             )
@@ -228,6 +235,9 @@ def unpack_impl(pkt, raw, offset, **k):
         if not module or getattr(
             module, 'BISTURI_PACKET_COOKIE', None
         ) != cookie:
+            return False
+
+        if getattr(module, 'BISTURI_PACKET_END', None) != cookie:
             return False
 
         if self.generate_for_pack and not hasattr(module, 'pack_impl'):
